@@ -43,6 +43,8 @@ type Shared struct {
 	Seed       int
 	Trace      bool
 	HarnessFiles []string
+	Summarize    map[string]bool // functions summarised as pure callees
+	LazySummary  bool            // explore summarised callees without feasibility checks (usually slower)
 	validations  int64
 }
 
@@ -103,7 +105,7 @@ func Load(repoDir, harnessDir string) (*Shared, error) {
 	prog, _ := ssautil.AllPackages(initial, ssa.InstantiateGenerics|ssa.SanityCheckFunctions*0)
 	prog.Build()
 	sh := &Shared{Prog: prog, Pkgs: map[string]*ssa.Package{}, RepoDir: repoDir, MaxSteps: 4_000_000,
-		Params: map[string]int{}, Known: map[string]bool{}, embeds: map[string]string{}, Solver: "z3", TimeoutMs: 60000, HarnessFiles: hfiles}
+		Params: map[string]int{}, Known: map[string]bool{}, Summarize: map[string]bool{}, embeds: map[string]string{}, Solver: "z3", TimeoutMs: 60000, HarnessFiles: hfiles}
 	for _, p := range prog.AllPackages() {
 		sh.Pkgs[p.Pkg.Path()] = p
 	}
@@ -325,6 +327,7 @@ func (sh *Shared) newInterpreter(worker int, p *pool) (*interpreter, error) {
 		worker:    worker,
 		initDone:  map[*ssa.Package]bool{},
 		funcSteps: map[*ssa.Function]int{},
+		fnCache:   map[*ssa.Function]*fnInfo{},
 	}
 	if sh.Trace {
 		i.mode |= EnableTracing
@@ -389,8 +392,8 @@ func (i *interpreter) runPath(pkg *ssa.Package, fn *ssa.Function, prefix []Decis
 	defer func() {
 		ps := i.ps
 		res.Steps = ps.steps
-		res.Forks = ps.forks
-		res.Trail = trailString(ps.trail)
+		res.Forks = ps.top.forks
+		res.Trail = trailString(ps.top.trail)
 		res.Reached = sortedKeys(ps.reached)
 		res.Notes = ps.notes
 		p := recover()
